@@ -17,7 +17,13 @@ def strategy(tier):
                     when = draw(st.sampled_from(['before', 'after']))
                     lab = draw(st.sampled_from(sorted(spec['nonterminals']) + (['ZZ'] if when == 'before' else [])))
                     ghosts[str(ri)] = {'label': lab, 'when': when}
-        return {'kind': 'hrg', 'spec': spec, 'order': draw(st.integers(0, 5)), 'ghosts': ghosts}
+        # a later edit of a rule that already belongs to the grammar, after the grammar has been queried once:
+        # add a nonterminal edge to / remove one from its right-hand side, then query again
+        edit = None
+        if spec['rules'] and draw(st.booleans()):
+            edit = {'rule': draw(st.integers(0, len(spec['rules']) - 1)), 'how': draw(st.sampled_from(['add', 'add', 'remove'])),
+                    'label': draw(st.sampled_from(sorted(spec['nonterminals']))), 'pick': draw(st.integers(0, 7))}
+        return {'kind': 'hrg', 'spec': spec, 'order': draw(st.integers(0, 5)), 'ghosts': ghosts, 'edit': edit}
     return cases()
 
 
@@ -29,6 +35,39 @@ def check(case, ctx):
         fgg, info = gen_fgg.build(spec, 'real', torch.float64, ghosts=case.get('ghosts'))
     except Exception as e:
         ctx.violation('build-failed', f'{type(e).__name__}: {e}'); return
+    if not verify(ctx, fgg, spec): return
+    ctx.label('hrg-removed-edge' if info.get('ghosts') else None)
+    ctx.label('hrg', 'hrg-recursive' if gen_fgg.is_recursive(spec) else None, 'hrg-ruleless-nt' if any(not gen_fgg.rules_of(spec, x) for x in spec['nonterminals']) else None)
+    ctx.nontrivial = len(spec['nonterminals']) >= 2 and any(e['label'] in spec['nonterminals'] for r in spec['rules'] for e in r['edges'])
+    ed = case.get('edit')
+    if ed:
+        import copy
+        spec2 = copy.deepcopy(spec)
+        r2 = spec2['rules'][ed['rule']]; ri = info['rules'][ed['rule']]
+        if ed['how'] == 'add':
+            ty = spec['nonterminals'][ed['label']]
+            att = []
+            for nlab in ty:
+                c = [j for j, l in enumerate(r2['nodes']) if l == nlab]
+                if not c: att = None; break
+                att.append(c[ed['pick'] % len(c)])
+            if att is None: return
+            e = fggs.Edge(info['els'][ed['label']], [ri['nodes'][a] for a in att])
+            ctx.call('rhs.add_edge', ri['rule'].rhs.add_edge, e)
+            r2['edges'].append({'label': ed['label'], 'att': att})
+        else:
+            ks = [k for k, e in enumerate(r2['edges']) if e['label'] in spec['nonterminals']]
+            if not ks: return
+            k = ks[ed['pick'] % len(ks)]
+            ctx.call('rhs.remove_edge', ri['rule'].rhs.remove_edge, ri['edges'][k])
+            del r2['edges'][k]
+        ctx.label('hrg-edited-after-query')
+        verify(ctx, fgg, spec2)
+
+
+def verify(ctx, fgg, spec):
+    import torch, fggs, warnings
+    from fggs.utils import nonterminal_graph, scc
     g = ctx.call('nonterminal_graph', nonterminal_graph, fgg)
     want_keys = set(spec['nonterminals'])
     ok = ctx.require({k.name for k in g} == want_keys and len(g) == len(want_keys), 'nonterminal_graph-keys',
@@ -37,7 +76,7 @@ def check(case, ctx):
     got_edges = {(x.name, y.name) for x in g for y in g[x]}
     ok &= ctx.require(got_edges == want_edges, 'nonterminal_graph-edges', f'edges {sorted(got_edges)} != {sorted(want_edges)}')
     ok &= ctx.require(all(y in g for x in g for y in g[x]), 'nonterminal_graph-not-closed', '')
-    if not ok: return
+    if not ok: return False
     comps = ctx.call('scc', scc, g)
     flat = [x.name for c in comps for x in c]
     ctx.require(sorted(flat) == sorted(want_keys), 'not-partition', f'{flat}')
@@ -55,6 +94,4 @@ def check(case, ctx):
         zs = ctx.call('sum_products', fggs.sum_products, fgg, method='fixed-point', kmax=30, tol=1e-3, semiring=fggs.RealSemiring(dtype=torch.float64))
     ctx.require({el.name for el in zs if el.is_nonterminal} == want_keys, 'sum_products-keys',
                 f'{sorted(el.name for el in zs if el.is_nonterminal)} != {sorted(want_keys)}')
-    ctx.label('hrg-removed-edge' if info.get('ghosts') else None)
-    ctx.label('hrg', 'hrg-recursive' if gen_fgg.is_recursive(spec) else None, 'hrg-ruleless-nt' if any(not gen_fgg.rules_of(spec, x) for x in want_keys) else None)
-    ctx.nontrivial = len(want_keys) >= 2 and len(want_edges) >= 1
+    return True
